@@ -5,14 +5,53 @@ import (
 	"runtime"
 )
 
-// Send is what `ch <- v` becomes.
-func Send[T any](site string, ch chan<- T, v T) {
+// The generic functions below are instantiated (and race-instrumented) in the caller's package:
+// they touch nothing of the simulator's state themselves; everything goes through the
+// non-generic helpers, which are compiled //go:norace.
+
+const (
+	modePlain   = 0 // no simulation, or Inspect
+	modeKilling = 1
+	modeSim     = 2
+)
+
+// chanEnter is the scheduling point in front of a channel operation.
+//
+//go:norace
+func chanEnter(site string) (*Sim, *Task, int) {
 	s := cur()
 	if s == nil || s.inspect {
-		ch <- v
-		return
+		return s, nil, modePlain
 	}
 	if s.killing {
+		return s, s.current, modeKilling
+	}
+	t := s.self("chan@" + site)
+	s.yield(site)
+	return s, t, modeSim
+}
+
+//go:norace
+func chanBlock(s *Sim, t *Task, site string, send bool) <-chan struct{} {
+	if send {
+		s.Stats["chan_send_blocked"]++
+		s.Stats["blocked@"+site]++
+	}
+	s.enterNative(t)
+	return t.kill
+}
+
+//go:norace
+func chanUnblock(s *Sim, t *Task) { s.exitNative(t) }
+
+// Send is what `ch <- v` becomes.
+func Send[T any](site string, ch chan<- T, v T) {
+	s, t, mode := chanEnter(site)
+	switch mode {
+	case modePlain:
+		ch <- v
+		return
+	case modeKilling:
 		select {
 		case ch <- v:
 		default:
@@ -20,32 +59,28 @@ func Send[T any](site string, ch chan<- T, v T) {
 		}
 		return
 	}
-	t := s.self("send@" + site)
-	s.yield(site)
 	select {
 	case ch <- v:
 		return
 	default:
 	}
-	s.Stats["chan_send_blocked"]++
-	s.Stats["blocked@"+site]++
-	s.enterNative(t)
+	kill := chanBlock(s, t, site, true)
 	select {
 	case ch <- v:
-	case <-t.kill:
+	case <-kill:
 		runtime.Goexit()
 	}
-	s.exitNative(t)
+	chanUnblock(s, t)
 }
 
 // Recv2 is what `v, ok := <-ch` becomes.
 func Recv2[T any](site string, ch <-chan T) (T, bool) {
-	s := cur()
-	if s == nil || s.inspect {
+	s, t, mode := chanEnter(site)
+	switch mode {
+	case modePlain:
 		v, ok := <-ch
 		return v, ok
-	}
-	if s.killing {
+	case modeKilling:
 		select {
 		case v, ok := <-ch:
 			return v, ok
@@ -53,22 +88,20 @@ func Recv2[T any](site string, ch <-chan T) (T, bool) {
 			runtime.Goexit()
 		}
 	}
-	t := s.self("recv@" + site)
-	s.yield(site)
 	select {
 	case v, ok := <-ch:
 		return v, ok
 	default:
 	}
-	s.enterNative(t)
+	kill := chanBlock(s, t, site, false)
 	var v T
 	var ok bool
 	select {
 	case v, ok = <-ch:
-	case <-t.kill:
+	case <-kill:
 		runtime.Goexit()
 	}
-	s.exitNative(t)
+	chanUnblock(s, t)
 	return v, ok
 }
 
@@ -131,30 +164,15 @@ func (s *Sel) try(i int) bool {
 	return true
 }
 
-// Wait returns the index of the case that fired, or -1 for default.
-func (s *Sel) Wait() int {
-	sim := cur()
-	n := len(s.cases)
-	if sim == nil || sim.inspect || sim.killing {
-		for i := 0; i < n; i++ {
-			if s.try(i) {
-				return i
-			}
-		}
-		if s.hasDef {
-			return -1
-		}
-		if sim != nil && sim.killing {
-			runtime.Goexit()
-		}
-		chosen, v, ok := reflect.Select(s.cases)
-		if s.slots[chosen] != nil {
-			s.slots[chosen](v, ok)
-		}
-		return chosen
+// selOrder: the scheduling point of a select and the order in which its cases are tried.
+//
+//go:norace
+func selOrder(site string, s *Sel) (*Sim, *Task, int, []int) {
+	sim, t, mode := chanEnter(site)
+	if mode != modeSim {
+		return sim, t, mode, nil
 	}
-	t := sim.self("select@" + s.site)
-	sim.yield(s.site)
+	n := len(s.cases)
 	order := sim.selr.Perm(n)
 	if sim.cfg.Policy == "seq" || sim.cfg.SelectOrder == "source" {
 		for i := range order {
@@ -165,7 +183,6 @@ func (s *Sel) Wait() int {
 			order[i] = n - 1 - i
 		}
 	}
-	// probe: how many cases are ready (buffered receive side only, conservative)
 	ready := 0
 	for i := 0; i < n; i++ {
 		c := s.cases[i]
@@ -176,6 +193,31 @@ func (s *Sel) Wait() int {
 	if ready >= 2 {
 		sim.Stats["probe.select_multi_ready"]++
 	}
+	return sim, t, mode, order
+}
+
+// Wait returns the index of the case that fired, or -1 for default.
+func (s *Sel) Wait() int {
+	sim, t, mode, order := selOrder(s.site, s)
+	n := len(s.cases)
+	if mode != modeSim {
+		for i := 0; i < n; i++ {
+			if s.try(i) {
+				return i
+			}
+		}
+		if s.hasDef {
+			return -1
+		}
+		if mode == modeKilling {
+			runtime.Goexit()
+		}
+		chosen, v, ok := reflect.Select(s.cases)
+		if s.slots[chosen] != nil {
+			s.slots[chosen](v, ok)
+		}
+		return chosen
+	}
 	for _, i := range order {
 		if s.try(i) {
 			return i
@@ -184,13 +226,13 @@ func (s *Sel) Wait() int {
 	if s.hasDef {
 		return -1
 	}
-	cases := append(append([]reflect.SelectCase(nil), s.cases...), reflect.SelectCase{Dir: reflect.SelectRecv, Chan: reflect.ValueOf(t.kill)})
-	sim.enterNative(t)
+	kill := chanBlock(sim, t, s.site, false)
+	cases := append(append([]reflect.SelectCase(nil), s.cases...), reflect.SelectCase{Dir: reflect.SelectRecv, Chan: reflect.ValueOf(kill)})
 	chosen, v, ok := reflect.Select(cases)
 	if chosen == n {
 		runtime.Goexit()
 	}
-	sim.exitNative(t)
+	chanUnblock(sim, t)
 	if s.slots[chosen] != nil {
 		s.slots[chosen](v, ok)
 	}
